@@ -339,6 +339,10 @@ pub struct FaultCase {
     pub follow: bool,
     pub mode: Mode,
     pub threads: u8,
+    /// `--no-messages`: the per-file diagnostics are suppressed, the exit
+    /// status is not
+    #[serde(default)]
+    pub no_messages: bool,
 }
 
 /// What the documentation and the property let us expect from one run.
@@ -594,7 +598,11 @@ pub fn check_faults(c: &FaultCase) -> Verdict {
 
     let errors = !ex.faulty.is_empty();
     let want = expected_status(c.mode, ex.any, errors);
-    let (out, cmd) = run_twice_on_timeout(&|| base_rg(&full, c.mode, c.threads, c.follow).args(ex.roots.iter().cloned()));
+    let (out, cmd) = run_twice_on_timeout(&|| {
+        let rg = base_rg(&full, c.mode, c.threads, c.follow);
+        let rg = if c.no_messages { rg.arg("--no-messages") } else { rg };
+        rg.args(ex.roots.iter().cloned())
+    });
     if out.timed_out {
         return Verdict::Reject("watchdog expired twice (inconclusive)");
     }
@@ -622,7 +630,13 @@ pub fn check_faults(c: &FaultCase) -> Verdict {
         }
     }
     let early_stop = c.mode.is_quiet() && ex.any;
-    if !early_stop {
+    if c.no_messages {
+        // --no-messages: "suppress all error messages related to opening and
+        // reading files" — nothing may be printed, the status stays
+        if !lines.is_empty() {
+            return Verdict::Fail(Fail::new(describe("--no-messages was given but a diagnostic was printed", &out, "")));
+        }
+    } else if !early_stop {
         for p in &ex.faulty {
             if !lines.iter().any(|l| names(l, p)) {
                 return Verdict::Fail(Fail::new(describe(&format!("no diagnostic on stderr names the faulty entry {p:?}"), &out, "")));
@@ -697,6 +711,7 @@ pub fn check_faults(c: &FaultCase) -> Verdict {
     info.class_if(early_stop && errors, "quiet_match_wins_over_error");
     info.class_if(c.mode.is_quiet() && !ex.any && errors, "quiet_without_match_reports_error");
     info.class_if(c.follow, "follow");
+    info.class_if(c.no_messages && errors, "no_messages_with_error");
     info.class_if(c.roots == Roots::TopLevel, "explicit_roots");
     info.class_if(t.links.iter().any(|l| l.target.is_some()), "valid_symlink");
     Verdict::Pass(info)
@@ -760,7 +775,9 @@ pub fn gen_faults(t: &mut Tape) -> FaultCase {
         }
     }
     let extras_first = t.bool();
-    FaultCase { tree, roots, extras, extras_first, follow, mode, threads }
+    // (drawn last: the rest of the case does not depend on it)
+    let no_messages = t.chance(1, 5);
+    FaultCase { tree, roots, extras, extras_first, follow, mode, threads, no_messages }
 }
 
 // ------------------------------------------------------------------ args ---
